@@ -146,6 +146,8 @@ type Observer struct {
 	SawTermChange    bool
 	SawPartialWrite  bool // a crash separated the configuration write from the transaction write of one spec action
 	SawRollbackEvent bool
+	SawInvalid       bool
+	SawAborted       bool
 	Terms            map[configapi.MastershipTerm]bool
 	StatusWithoutCfg []string // AtomicStatusChange failures (kept for trigger predicates)
 
@@ -232,7 +234,9 @@ func (o *Observer) observe(op string) {
 		return
 	}
 	if m := cur.Cfg.Status.Mastership; m != nil {
-		if len(o.Terms) > 0 && !o.Terms[m.Term] {
+		// the first election (term 0 -> 1) is part of every history; a term
+		// change in the sense of the property is a later one (mastership moved)
+		if m.Term >= 2 && !o.Terms[m.Term] {
 			o.SawTermChange = true
 		}
 		o.Terms[m.Term] = true
@@ -251,6 +255,45 @@ func (o *Observer) observe(op string) {
 	}
 	o.checkFailedBlocksLater(cur)
 	o.checkConsistency(cur, false)
+}
+
+// noteCrash is called when the process has crashed: if at that moment the
+// configuration record and a transaction record disagree about how far an
+// action got, the crash separated the two writes of one spec action (the
+// "\\/ UNCHANGED <<transactions>>" / "\\/ UNCHANGED <<configuration>>" branches).
+func (o *Observer) noteCrash() {
+	s := o.snapshot()
+	if s.Cfg == nil {
+		return
+	}
+	c := s.Cfg
+	for i := 1; i <= len(s.Txs); i++ {
+		t := s.tx(i)
+		if t == nil {
+			continue
+		}
+		idx := configapi.Index(i)
+		cc, ca := status(t, Change, Commit), status(t, Change, Apply)
+		rc, ra := status(t, Rollback, Commit), status(t, Rollback, Apply)
+		lag := false
+		switch {
+		case cc == Pending && c.Committed.Target == idx,
+			cc == InProgress && c.Committed.Change == idx,
+			cc == Failed && c.Committed.Change < idx,
+			cc == Complete && ca == Pending && c.Applied.Target == idx,
+			ca == InProgress && c.Applied.Ordinal == t.Status.Change.Ordinal && c.Applied.Index == idx,
+			(ca == Aborted || ca == Failed) && c.Applied.Ordinal < t.Status.Change.Ordinal,
+			rc == Pending && c.Committed.Revision == configapi.Revision(i) && c.Committed.Target == t.Status.Rollback.Index && c.Committed.Target != idx,
+			rc == InProgress && c.Committed.Revision == configapi.Revision(t.Status.Rollback.Index) && c.Committed.Index == idx,
+			rc == Complete && ra == Pending && isDone(ca) && c.Applied.Target == t.Status.Rollback.Index && c.Applied.Ordinal == t.Status.Rollback.Ordinal-1,
+			ra == InProgress && c.Applied.Ordinal == t.Status.Rollback.Ordinal:
+			lag = true
+		}
+		if lag {
+			o.SawPartialWrite = true
+			o.w.X.Logf("      (the crash separated the configuration write from the status write of tx%d)", i)
+		}
+	}
 }
 
 // ---------------------------------------------------------------------------
@@ -377,6 +420,7 @@ func (o *Observer) diffTransactions(old, cur Snap) {
 		//   history' = Append(history, [phase |-> Change, event |-> Commit, index |-> i, status |-> Failed])
 		if a, b := status(ot, Change, Commit), status(nt, Change, Commit); a != b && b == Failed {
 			o.add(Event{Phase: Change, Event: Commit, Index: i, Status: Failed, Action: "CommitChange/InProgress: validation failed, change.commit := Failed"})
+			o.SawInvalid = true
 		}
 		// ApplyChange Pending branch (applied.revision < rollback.index) and ApplyRollback first branch:
 		//   transactions' = [transactions EXCEPT ![i].change.apply = Aborted]
@@ -388,6 +432,9 @@ func (o *Observer) diffTransactions(old, cur Snap) {
 			o.add(Event{Phase: Change, Event: Apply, Index: i, Status: b, Action: "ApplyChange|ApplyRollback: change.apply := " + b})
 			if b == Failed && nt.Status.Phase == configapi.TransactionStatus_CHANGE {
 				o.SawRefusedApply = true
+			}
+			if b == Aborted {
+				o.SawAborted = true
 			}
 		}
 		// Not in the specification (its ApplyRollback cannot fail): the
